@@ -7,7 +7,8 @@ EN(k, sub) == [k |-> k, v |-> 0, sp |-> 0, sub |-> sub, al |-> 0, str |-> FALSE]
 Nd(p, ps) == [proc |-> p, ps |-> ps, flow |-> FALSE, quoted |-> FALSE, alias |-> 0, pempty |-> 0, sweep |-> NoSweep]
 Sw(el, vals, mode, bc, expr) ==
     [proc |-> el, ps |-> <<>>, flow |-> FALSE, quoted |-> FALSE, alias |-> 0, pempty |-> 0,
-     sweep |-> [on |-> TRUE, vname |-> "t", vals |-> vals, ints |-> FALSE, ctx2 |-> FALSE, vorder |-> FALSE, mode |-> mode, bc |-> bc, expr |-> expr, coll |-> "FloatDataCollection", el |-> el]]
+     sweep |-> [on |-> TRUE, vname |-> "t", vals |-> vals, ints |-> FALSE, ctx2 |-> FALSE, vorder |-> FALSE, mode |-> mode, bc |-> bc, expr |-> expr, coll |-> "FloatDataCollection", el |-> el, rng |-> NoRng]]
+Rng(lo, hi, n, endp, log) == [on |-> TRUE, lo |-> lo, hi |-> hi, steps |-> n, endp |-> endp, log |-> log, expl |-> FALSE]
 Seed1 == << Nd("FloatValueDataSource", <<E("value", 1)>>),
             Nd("FloatMultiplyOperation", <<E("factor", 3)>>),
             Nd("VNestedOperation", <<E("gain", 2), EN("opts", <<S("alpha", 1), S("beta", 2)>>)>>) >>
@@ -33,5 +34,12 @@ Seed11 == << Sw("FloatValueDataSource", <<1, 2>>, "combinatorial", FALSE, <<"abs
 \* a commutative root whose BOTH operands are chains: (t + 1) * (2 + t), and 2*t + t*3
 Seed12 == << Sw("FloatValueDataSource", <<1, 2>>, "combinatorial", FALSE, <<"*", <<"+", <<"t">>, <<"c", 1>>>>, <<"+", <<"c", 2>>, <<"t">>>>>>),
              Sw("FloatValueDataSourceWithDefault", <<1, 2>>, "combinatorial", FALSE, <<"+", <<"*", <<"c", 2>>, <<"t">>>>, <<"*", <<"t">>, <<"c", 3>>>>>>) >>
-AllSeeds == {Seed1, Seed2, Seed3, Seed4, Seed5, Seed6, Seed7, Seed8, Seed9, Seed10, Seed11, Seed12}
+\* context processors GENERATED from a string specification (template / rename / delete): their class exists only
+\* after the node factory ran, and its name is derived from the specification text
+Seed13 == << Nd("FloatValueDataSource", <<E("value", 1)>>), Nd("template:\"x{value}_{factor}\":label", <<>>),
+             Nd("rename:label:tag.sub", <<>>), Nd("delete:tag.sub", <<>>), Nd("FloatMultiplyOperation", <<>>) >>
+\* a second variable given as a range: 7-digit end point, both scales, end point excluded / included
+Seed14 == << [Sw("FloatValueDataSource", <<1, 2>>, "combinatorial", FALSE, <<"t">>) EXCEPT !.sweep.rng = Rng(1, 1234567, 2, TRUE, FALSE)],
+             [Sw("FloatValueDataSourceWithDefault", <<1, 2>>, "combinatorial", FALSE, <<"t">>) EXCEPT !.sweep.rng = Rng(2, 16777216, 2, FALSE, TRUE)] >>
+AllSeeds == {Seed14, Seed1, Seed2, Seed3, Seed4, Seed5, Seed6, Seed7, Seed8, Seed9, Seed10, Seed11, Seed12, Seed13}
 =============================================================================
